@@ -61,3 +61,10 @@
   (forall ((i!s Int)) (! (=> (and (<= 0 i!s) (< i!s (len_Any c)))
       (and (validSys (select (arr_Any c) i!s)) (=> (fromOk (select (arr_Any c) i!s)) (validSys (fromS (select (arr_Any c) i!s))))))
     :pattern ((select (arr_Any c) i!s)))))
+; ---- C13: the eight conversion functions toT as deterministic functions of (input, args);
+; k: 0 Boolean, 1 Integer, 2 Decimal, 3 String, 4 Date, 5 DateTime, 6 Time, 7 Quantity
+(declare-fun toS (Int Slice_Any Slice_Any) Slice_Any)
+(declare-fun toE (Int Slice_Any Slice_Any) Err)
+(define-fun isKind ((k Int) (x Any)) Bool
+  (ite (= k 0) (isBoolV x) (ite (= k 1) (isInteger x) (ite (= k 2) (isDecimalV x) (ite (= k 3) (isStringV x)
+  (ite (= k 4) (isDateV x) (ite (= k 5) (isDateTimeV x) (ite (= k 6) (isTimeV x) (isQuantityV x)))))))))
